@@ -1205,6 +1205,13 @@ class PredFlow:
             return out
         if subj[0] == "agg" and subj[2] is not None and isinstance(variant, str):
             return "T" if subj[2] == variant else "B"  # a literal Some(..)/None/Ok(..)/Err(..)
+        if subj[0] == "call" and variant in ("Continue", "Break") and any(isinstance(n, str) and (path_is(n, "Try::branch") or n.endswith("::branch")) for n in (subj[1], subj[3])) and subj[2]:
+            # the `?` operator: Continue <=> Some/Ok, Break <=> None/Err of the operand
+            for v in (("Some", "Ok") if variant == "Continue" else ("None", "Err")):
+                c = self._cls(subj[2][0], v, depth + 1)
+                if c is not None:
+                    return c
+            return None
         if subj[0] == "call" and isinstance(subj[1], str) and variant in ("Some", "None"):
             if path_is(subj[1], "bool::then_some") or path_is(subj[1], "bool::then"):
                 w = self.cb(strip_sym(subj[2][0]))
